@@ -20,6 +20,8 @@ helper call as `key=value` tokens (vectors `a,b,c`; lists of vectors `v;w`; `-` 
   ps  n= phases=g,l rows=v;w nout=                           -> ps outs=g:v;l:w | ps err=runtime
   cs  n= a=v b=v|- mixed=v|-                                 -> cs split=v
   mb  n= idx=l vin=v;w cin=v;w|- cout=v;w                    -> mb vin=v;w res=0 | mb err=…
+  mbc n= idx=l vin=v;w cin=v;w cout=v;w fuel= tol=           -> mbc vin=v;w it= shift=0|1 | mbc err=noconv|singular
+  pt  … alias=top|bottom   (the feed object is that outlet)   -> <as found> || <alias-safe result>
 -/
 namespace Driver.C20
 open ThermoVerif.Separations Driver
@@ -126,13 +128,20 @@ def run (op : String) (kv : KV) : Option String :=
     | .error e => some (s!"pf err={e.toString}" ++ path ++ (if p.borderline tol9 then " borderline" else ""))
   | "pt" => do
     let p ← parsePart kv
+    let al ← (match (kv.get "alias").getD "none" with
+      | "none" => some Alias.none | "top" => some Alias.top | "bottom" => some Alias.bottom | _ => none)
     let bl := if p.borderline tol9 then " borderline" else ""
-    match partition p with
-    | .ok o =>
-      let kok := showB (decide (kSpread p o ≤ tol9))
-      let path := if o.clipped && !o.warned then " path=silent-clip" else ""
-      some (s!"pt phi={showRat o.phi} top={showVec o.top} bot={showVec o.bottom} clip={showB o.warned} kok={kok}" ++ path ++ bl)
-    | .error e => some (s!"pt err={e.toString}" ++ bl)
+    let showRes (r : Except Err PartOut) : String :=
+      match r with
+      | .ok o =>
+        let kok := showB (decide (kSpread p o ≤ tol9))
+        let path := if o.clipped && !o.warned then " path=silent-clip" else ""
+        s!"pt phi={showRat o.phi} top={showVec o.top} bot={showVec o.bottom} clip={showB o.warned} kok={kok}" ++ path ++ bl
+      | .error e => s!"pt err={e.toString}" ++ bl
+    match al with
+    | .none => some (showRes (partition p))
+    -- feed aliased to an outlet: the behaviour as found, then what an alias-safe partition would give
+    | _ => some (showRes (partitionAliased p al) ++ " || " ++ showRes (partition p))
   | "bpf" => do
     let zs ← parseVec (← kv.get "zs")
     let ks ← parseVec (← kv.get "ks")
@@ -206,6 +215,18 @@ def run (op : String) (kv : KV) : Option String :=
       let res := idx.all (fun c => m.residual v c == 0)
       some s!"mb vin={showVecs v} res={showB res}"
     | .error e => some s!"mb err={e.toString}"
+  | "mbc" => do
+    let n ← (← kv.get "n").toNat?
+    let idx ← parseNats (← kv.get "idx")
+    let vin ← parseVecs (← kv.get "vin")
+    let cin ← parseVecs (← kv.get "cin")
+    let cout ← parseVecs (← kv.get "cout")
+    let fuel ← (← kv.get "fuel").toNat?
+    let tol ← parseRat? (← kv.get "tol")
+    let m : CompIn := { n, idx, vin, cin, cout, fuel, tol }
+    match compositionBalance m with
+    | .ok o => some s!"mbc vin={showVecs o.vin} it={o.iterations} shift={showB o.shifted}"
+    | .error e => some s!"mbc err={e.toString}"
   | _ => none
 
 def step (st : Unit) (line : String) : Unit × String :=
